@@ -646,6 +646,9 @@ func genShare(tier string, seed int64, only string) []*Case {
 				continue
 			}
 			for _, in := range inners {
+				if len(toks) == 4 && strings.Count(in, ";") == 2 {
+					continue // thorough: outer 4 x inner <= 2, outer <= 3 x inner <= 3 (memory)
+				}
 				nt := append(append([]string{}, toks[:pos]...), "S["+in+"]")
 				nt = append(nt, toks[pos+1:]...)
 				nev := strings.Join(nt, ",")
